@@ -51,7 +51,21 @@ def balanced(src, i, open_c="{", close_c="}"):
     raise TranslateError("unbalanced %s%s" % (open_c, close_c))
 
 
+def unwrap_casts(s):
+    """static_cast<IndexType>(e), IndexType(e) -> (e): the conversions between the iterator difference / size types and IndexType
+    carry no behaviour for the sizes that occur (N < 2^31)"""
+    while True:
+        m = re.search(r"\bstatic_cast\s*<\s*IndexType\s*>\s*\(|(?<![\w<:.>])IndexType\s*\(", s)
+        if not m:
+            return s
+        j = balanced(s, m.end() - 1, "(", ")")
+        s = s[:m.start()] + "(" + s[m.end():j] + ")" + s[j + 1:]
+
+
 def squeeze(s):
+    s = unwrap_casts(s)
+    # the spelling of the row iterator's type is free
+    s = re.sub(r"\b(?:const\s+)?(?:Neighbors::const_iterator|Neighbors::iterator|auto)\s+iter\b", "ITER iter", s)
     return re.sub(r"\s+", "", s)
 
 
